@@ -14,7 +14,7 @@ EXPLANATION = (
     "slices char_to_str_pos[start]..char_to_str_pos[end]; Token::tags = tags[(end-1)*n_tags .. end*n_tags]."
 )
 THOROUGH_CONFIGS = [C.MINIMAL, C.NO_TAG]
-QUICK_CONFIGS = [C.NO_TAG]
+QUICK_CONFIGS = [C.NO_TAG, C.MINIMAL]
 NOT_DECIDED = [
     "that surfaces concatenate to the text as values (content of char_to_str_pos; sizing facts are in C05)",
 ]
